@@ -713,53 +713,39 @@ def _check_history(toks, steps, lays, fails, known):
 
 
 # ====================================================================== Tractogram layer
+COMPS = ('S', 'P', 'M')      # streamlines, data_per_point['c'], data_per_streamline['m']
+
+
 def parse_tobs(s):
-    """'0=1.2/3|1001.1002/1003&1=-|~' -> {0: ([[1,2],[3]], [[1001,1002],[1003]]), 1: ([], None)}"""
+    """'0=1.2/3|1001.1002/1003|5001/5003&1=-|~|~' -> {0: (S, P, M), ...}; None for a missing key"""
     out = {}
     if not s:
         return out
     for part in s.split('&'):
         i, _, body = part.partition('=')
-        a, _, b = body.partition('|')
-        out[int(i)] = (dec_elems(a), None if b == '~' else dec_elems(b))
+        out[int(i)] = tuple(None if x == '~' else dec_elems(x) for x in body.split('|'))
     return out
 
 
 class TTracker:
-    """Naive model of Tractogram histories: a tractogram is two Python lists of arrays (streamlines
-    'S' and data_per_point['c'] 'P'), an array is a cell id.  t[idx] shares cells with t (views);
-    t.copy(), t + other and what `+=` appends are new arrays.  The one place where the code shares
-    instead (left operand without the key: PerArrayDict.extend stores other's object) is modelled
-    as sharing and the cells are remembered in `kshare` (finding S-C15e)."""
+    """Naive model of Tractogram histories: a tractogram is three Python lists of arrays
+    (streamlines 'S', data_per_point['c'] 'P', the rows of data_per_streamline['m'] 'M'); an array
+    is a cell id.  t[idx] shares cells with t (views); t.copy(), t + other and everything `+=`
+    appends or takes over from the other operand are NEW arrays."""
 
     def __init__(self):
-        self.cells = {}
-        self.ts = []          # dict(S=[ids], P=[ids] or None, alive)
-        self.kshare = set()
+        self.ncell = 0
+        self.ts = []          # dict(S=[ids], P=[ids] or None, M=[ids] or None, alive)
 
-    def cell(self, v):
-        k = len(self.cells)
-        self.cells[k] = list(v)
-        return k
+    def cell(self):
+        self.ncell += 1
+        return self.ncell
 
     def fresh(self, ids):
-        return [self.cell(self.cells[c]) for c in ids]
-
-    def vals(self, i, comp):
-        t = self.ts[i]
-        return None if t[comp] is None else [self.cells[c] for c in t[comp]]
+        return None if ids is None else [self.cell() for _ in ids]
 
     def live(self):
         return [i for i, t in enumerate(self.ts) if t['alive']]
-
-    def extend_into(self, dst, src):
-        dst['S'] = dst['S'] + self.fresh(src['S'])
-        if src['P'] is not None:
-            if dst['P'] is None:
-                dst['P'] = list(src['P'])          # self[key] = other[key]: a view of other's data
-                self.kshare |= set(src['P'])
-            else:
-                dst['P'] = dst['P'] + self.fresh(src['P'])
 
     def apply(self, tok):
         f = tok.split(':')
@@ -767,70 +753,64 @@ class TTracker:
         T = self.ts
         if o == 'tnew':
             if f[1] == '-':
-                T.append(dict(S=[], P=None, alive=True))
+                T.append(dict(S=[], P=None, M=None, alive=True, lens=[]))
             else:
                 els = [e for e in dec_elems(f[1]) if e]
-                T.append(dict(S=[self.cell(e) for e in els], P=[self.cell([v + 1000 for v in e]) for e in els], alive=True))
+                T.append(dict(S=[self.cell() for _ in els], P=[self.cell() for _ in els],
+                              M=[self.cell() for _ in els], alive=True))
             return 'ok'
         i = int(f[1])
         t = T[i]
         if o in ('tadd', 'tiadd'):
             src = T[int(f[2])]
             if o == 'tadd':
-                t = dict(S=self.fresh(t['S']), P=None if t['P'] is None else self.fresh(t['P']), alive=True)
+                t = dict(S=self.fresh(t['S']), P=self.fresh(t['P']), M=self.fresh(t['M']), alive=True)
                 T.append(t)
-            self.extend_into(t, dict(S=list(src['S']), P=None if src['P'] is None else list(src['P'])))
+            for c in COMPS:
+                add = self.fresh(src[c])
+                if add is not None:
+                    t[c] = (t[c] or []) + add
             return 'ok'
         if o == 'tcopy':
-            T.append(dict(S=self.fresh(t['S']), P=None if t['P'] is None else self.fresh(t['P']), alive=True))
+            T.append(dict(S=self.fresh(t['S']), P=self.fresh(t['P']), M=self.fresh(t['M']), alive=True))
             return 'ok'
         if o == 'tget':
             ps = positions(len(t['S']), dec_index(f[2]))
             if isinstance(ps, str):
                 return ps
-            T.append(dict(S=[t['S'][p] for p in ps], P=None if t['P'] is None else [t['P'][p] for p in ps], alive=True))
+            T.append(dict(alive=True, **{c: None if t[c] is None else [t[c][p] for p in ps] for c in COMPS}))
             return 'ok'
         if o == 'tdrop':
             t['alive'] = False
             return 'ok'
-        comp = 'P' if o in ('tsetp', 'tsetsp', 'tiopp') else 'S'
-        ids = t[comp]
-        if o in ('tset', 'tsetp'):
+        ids = t[WCOMP[o]]
+        if o in ('tset', 'tsetp', 'tsetm'):
             k = int(f[2])
-            if not -len(ids) <= k < len(ids):
-                return 'err:Index'
-            self.cells[ids[k]] = [int(f[3])] * len(self.cells[ids[k]])
-            return 'ok'
+            return 'ok' if -len(ids) <= k < len(ids) else 'err:Index'
         if o in ('tsets', 'tsetsp'):
             ps = positions(len(ids), dec_index(f[2]))
-            if isinstance(ps, str):
-                return ps
-            for p in ps:
-                self.cells[ids[p]] = [int(f[3])] * len(self.cells[ids[p]])
-            return 'ok'
+            return ps if isinstance(ps, str) else 'ok'
         if o in ('tiop', 'tiopp'):
-            if not ids:
-                return 'err:StopIteration'
-            for c in dict.fromkeys(ids):
-                self.cells[c] = [apply_fn(f[2], v) for v in self.cells[c]]
-            return 'ok'
+            return 'ok' if ids else 'err:StopIteration'
         raise ValueError(tok)
 
     def written(self, tok):
         """cells written by tok (evaluated BEFORE apply)"""
         f = tok.split(':')
         o = f[0]
-        if o not in ('tset', 'tsetp', 'tsets', 'tsetsp', 'tiop', 'tiopp'):
+        if o not in WCOMP:
             return set()
-        t = self.ts[int(f[1])]
-        ids = t['P' if o in ('tsetp', 'tsetsp', 'tiopp') else 'S']
-        if o in ('tset', 'tsetp'):
+        ids = self.ts[int(f[1])][WCOMP[o]]
+        if o in ('tset', 'tsetp', 'tsetm'):
             k = int(f[2])
             return {ids[k]} if -len(ids) <= k < len(ids) else set()
         if o in ('tsets', 'tsetsp'):
             ps = positions(len(ids), dec_index(f[2]))
             return set() if isinstance(ps, str) else {ids[p] for p in ps}
         return set(ids)
+
+
+WCOMP = {'tset': 'S', 'tsets': 'S', 'tiop': 'S', 'tsetp': 'P', 'tsetsp': 'P', 'tiopp': 'P', 'tsetm': 'M'}
 
 
 def check_thistory(toks, steps):
@@ -840,9 +820,12 @@ def check_thistory(toks, steps):
     * a created object (t + other, t.copy(), t[idx]) shows the list-model contents, `t += other`
       gives t exactly its old contents followed by other's, nothing else changes (growth isolation);
     * an assignment / in-place operator through t gives t exactly the list-model contents, and
-      changes NO tractogram that does not share arrays with t in the list model (a copy, a sum);
+      changes NO tractogram that does not share arrays with t in the list model (a copy, a sum —
+      whatever the operands, Tractogram() + t included);
       for tractograms that do share by lineage (t[idx]) each shared array either took the new
-      value or kept the old one (growth may have detached them, S-C15d), the others are unchanged."""
+      value or kept the old one (growth may have detached them, S-C15d; fancy indexing copies the
+      per-streamline rows), the others are unchanged.
+    Streamlines, data_per_point['c'] and data_per_streamline['m'] are all compared."""
     fails, known = [], {}
     tr = TTracker()
     prev = {}
@@ -853,14 +836,14 @@ def check_thistory(toks, steps):
             f = tok.split(':')
             o = f[0]
             target = int(f[1]) if o != 'tnew' else None
-            old_ids = {i: (list(t['S']), None if t['P'] is None else list(t['P'])) for i, t in enumerate(tr.ts)}
+            old_ids = {i: {c: (None if t[c] is None else list(t[c])) for c in COMPS} for i, t in enumerate(tr.ts)}
             wr = tr.written(tok)
             exp_res = tr.apply(tok)
             if exp_res != res:
                 fails.append(('result', k, f'{tok}: expected {exp_res}, got {res}'))
                 break
-            is_write = o in ('tset', 'tsetp', 'tsets', 'tsetsp', 'tiop', 'tiopp')
-            wcomp = 1 if o in ('tsetp', 'tsetsp', 'tiopp') else 0
+            is_write = o in WCOMP
+            wcomp = COMPS.index(WCOMP[o]) if is_write else None
 
             def g(old):
                 if o in ('tiop', 'tiopp'):
@@ -875,16 +858,18 @@ def check_thistory(toks, steps):
                 if i not in cur:
                     fails.append(('missing', k, f'{tok}: tractogram {i} not observed'))
                     break
-                for ci, comp in enumerate(('S', 'P')):
+                for ci, comp in enumerate(COMPS):
                     got = cur[i][ci]
                     if res != 'ok':
                         exp = [[x] for x in prev[i][ci]] if prev[i][ci] is not None else None
                     elif i == new_idx:
                         if o == 'tnew':
-                            els = [e for e in dec_elems(f[1]) if e] if f[1] != '-' else None
-                            e1 = els if ci == 0 else (None if els is None else [[v + 1000 for v in e] for e in els])
-                            if els is None and ci == 0:
-                                e1 = []
+                            if f[1] == '-':
+                                e1 = [] if ci == 0 else None
+                            else:
+                                els = [e for e in dec_elems(f[1]) if e]
+                                e1 = (els if ci == 0 else [[v + 1000 for v in e] for e in els] if ci == 1
+                                      else [[e[0] + 5000] for e in els])
                         elif o == 'tadd':
                             e1 = cat2(prev[target][ci], prev[int(f[2])][ci])
                         elif o == 'tcopy':
@@ -897,7 +882,7 @@ def check_thistory(toks, steps):
                         e1 = cat2(prev[i][ci], prev[int(f[2])][ci])
                         exp = None if e1 is None else [[x] for x in e1]
                     elif is_write and ci == wcomp and prev[i][ci] is not None:
-                        ids = old_ids[i][ci]
+                        ids = old_ids[i][comp]
                         exp = []
                         for q, old in enumerate(prev[i][ci]):
                             if ids[q] in wr:
@@ -910,7 +895,7 @@ def check_thistory(toks, steps):
                     if ok and got is not None:
                         ok = len(got) == len(exp) and all(gv in ev for gv, ev in zip(got, exp))
                     if ok:
-                        if is_write and i != target and got is not None and any(
+                        if is_write and i != target and got is not None and comp != 'M' and any(
                                 len(ev) == 2 and gv == ev[1] and ev[0] != ev[1] for gv, ev in zip(got, exp)):
                             known['S-C15d'] = known.get('S-C15d', 0) + 1
                         continue
@@ -921,12 +906,6 @@ def check_thistory(toks, steps):
                     break
                 if fails:
                     break
-            # writes that reached another tractogram through the key-less-left-operand sharing
-            if is_write and res == 'ok' and wr & tr.kshare and not fails:
-                for i in tr.live():
-                    if i != target and i in old_ids and old_ids[i][1] and set(old_ids[i][1]) & wr & tr.kshare \
-                            and cur[i][1] != prev[i][1]:
-                        known['S-C15e'] = known.get('S-C15e', 0) + 1
             if fails:
                 break
             prev = cur
@@ -939,8 +918,8 @@ def tract_core():
     """seed-independent Tractogram histories: derive x (grow) x write, for several sources"""
     out = []
     inits = ['tnew:1.2/3/4.5.6', 'tnew:7/8/9']
-    writes = lambda d: [f'tset:{d}:0:77', f'tsetp:{d}:-1:88', f'tsets:{d}:s,n,n,2:55', f'tsetsp:{d}:s,n,n,n:66',
-                        f'tiop:{d}:add,100', f'tiopp:{d}:mul,2']
+    writes = lambda d: [f'tset:{d}:0:77', f'tsetp:{d}:-1:88', f'tsetm:{d}:0:99', f'tsets:{d}:s,n,n,2:55',
+                        f'tsetsp:{d}:s,n,n,n:66', f'tiop:{d}:add,100', f'tiopp:{d}:mul,2']
     for init in inits:
         # objects: 0 = source, 1 = Tractogram(), 2 = source[0:0], 3 = source[[]] (empty list index), 4 = another one
         pre = [init, 'tnew:-', 'tget:0:s,0,0,n', 'tget:0:l', 'tnew:20.21/22']
@@ -953,9 +932,12 @@ def tract_core():
             for grow in ([], [f'tiadd:{new}:1'], [f'tiadd:{new}:2'], [f'tiadd:{new}:4'], [f'tiadd:{new}:0'], ['tiadd:0:4']):
                 for w in writes(new) + writes(0):
                     out.append(pre + d + grow + [w])
-    # the key-less left operand (finding S-C15e): Tractogram() + t shares t's per-point data
-    for w in ('tsetp:2:0:77', 'tiopp:2:add,5', 'tset:2:0:9'):
-        out.append(['tnew:1.2/3/4.5.6', 'tnew:-', 'tadd:1:0', w])
+    # a left operand without keys: Tractogram() + t, e += t must be independent of t in all three components
+    for w in ('tsetp:{d}:0:77', 'tiopp:{d}:add,5', 'tset:{d}:0:9', 'tsetm:{d}:-1:66', 'tsetsp:{d}:s,n,n,n:44'):
+        out.append(['tnew:1.2/3/4.5.6', 'tnew:-', 'tadd:1:0', w.format(d=2)])
+        out.append(['tnew:1.2/3/4.5.6', 'tnew:-', 'tiadd:1:0', w.format(d=1)])
+        out.append(['tnew:1.2/3/4.5.6', 'tnew:-', 'tadd:1:0', w.format(d=0)])
+        out.append(['tnew:1.2/3/4.5.6', 'tnew:-', 'tget:0:s,1,n,n', 'tiadd:1:2', w.format(d=1)])
     return out
 
 
@@ -987,8 +969,8 @@ def tract_random(rng, depth):
             continue
         i = rng.choice(keyed)
         n = len(tr.ts[i]['S'])
-        kind = rng.choice(['add', 'add', 'iadd', 'copy', 'get', 'get', 'set', 'setp', 'sets', 'setsp', 'iop', 'iopp',
-                           'new', 'drop'])
+        kind = rng.choice(['add', 'add', 'iadd', 'copy', 'get', 'get', 'set', 'setp', 'setm', 'sets', 'setsp', 'iop',
+                           'iopp', 'new', 'drop', 'eadd'])
         if len(live) > 8 and kind in ('add', 'copy', 'get', 'new'):
             kind = 'drop'
         if kind in ('add', 'iadd'):
@@ -1008,7 +990,12 @@ def tract_random(rng, depth):
                 push(f'tget:{i}:l' + ''.join(f',{k}' for k in ks))
             else:
                 push(f'tget:{i}:m' + ''.join(',' + str(rng.randrange(2)) for _ in range(n)))
-        elif kind in ('set', 'setp') and n:
+        elif kind == 'eadd':
+            # a key-less left operand: a fresh Tractogram() takes over everything from i
+            push('tnew:-')
+            e = len(tr.ts) - 1
+            push(f't{rng.choice(["add", "iadd"])}:{e}:{i}')
+        elif kind in ('set', 'setp', 'setm') and n:
             push(f't{kind}:{i}:{rng.randrange(-n, n)}:{rng.randrange(200, 300)}')
         elif kind in ('sets', 'setsp'):
             c = [None] + list(range(-n - 1, n + 2))
